@@ -12,6 +12,7 @@ pub mod c11;
 pub mod c12;
 pub mod c13;
 pub mod c16;
+pub mod c18;
 pub mod c21;
 pub mod dbg;
 pub mod c22;
@@ -39,6 +40,7 @@ pub fn dispatch(id: &str, args: &Args) -> i32 {
         "C13" => drive_main(&c13::C13, args),
         "C14" => drive_main(&c13::C14, args),
         "C16" => drive_main(&c16::C16, args),
+        "C18" => drive_main(&c18::C18, args),
         "C21" => drive_main(&c21::C21, args),
         "C22" => drive_main(&c22::C22, args),
         "C24" => drive_main(&c24::C24, args),
